@@ -36,14 +36,14 @@ def corr_lines(ctx, rng, quick):
         for _ in range(40 if small else (2 if quick else 10)):
             d = rng.randrange(1, n)
             h = rng.choice([rng.randrange(0, 2 * n), 0, n, rng.randrange(2 ** 300)]) if not small else rng.randrange(0, 3 * n)
-            k = rng.choice([rng.randrange(1, n), 1, n - 1]) if not small else rng.randrange(1, n)
+            k = rng.choice([rng.randrange(1, n), 1, n - 1, 0, n, n + 1, 2 * n, 2 * n - 1]) if not small else rng.randrange(0, 2 * n + 2)
             out.append(f"ecdsa.sign {spec} {d} {h} {k}")
             Q = refec.mul(c, d, G)
             z = rng.randrange(2, p)
             qrep = rng.choice([f"{Q[0]},{Q[1]},1,{n},0", f"{Q[0] * z * z % p},{Q[1] * z ** 3 % p},{z},{n},0", f"{Q[0]},{Q[1]},1,0,0",
                                f"{Q[0]},{Q[1]},1,{n},1", f"{Q[0] * z * z % p},{Q[1] * z ** 3 % p},{z},{n},1"])   # precomputed public key
             e = h % (2 ** 600)
-            kk = k
+            kk = k % n or 1                      # the verifies cases below need a genuine signature: nonce k mod n (1 if that is 0)
             R = refec.mul(c, kk, G)
             r = R[0] % n
             s = pow(kk, -1, n) * (e + r * d) % n
